@@ -24,10 +24,12 @@ THEOREMS = [
     'Pyiga.Props.C15.reindex_from_reordered_two_level', 'Pyiga.Props.C15.raveled_cartesian_product_refines',
     'Pyiga.Props.C15.row_spec', 'Pyiga.Props.C15.rows_spec', 'Pyiga.Props.C15.kron_partial_spec',
     'Pyiga.Props.C15.sparsity_from_kvs',
+    'Pyiga.Props.C15.generator_entry_spec', 'Pyiga.Props.C15.generator_entry_2_spec',
+    'Pyiga.Props.C15.sequential_bidx_as_coded_wrong',
     'Pyiga.Props.C15.matvec_refines', 'Pyiga.Props.C15.asmatrix_preserves_matvec', 'Pyiga.Props.C15.matvec_length',
 ]
 MODULES = ['Pyiga.Model.Index', 'Pyiga.Model.MLMatrix', 'Pyiga.Proofs.Index', 'Pyiga.Proofs.MLMatrix',
-           'Pyiga.Proofs.MLMatrix2', 'Pyiga.Proofs.MLRows', 'Pyiga.Proofs.MLSparsity', 'Pyiga.Proofs.MLMatvec', 'Pyiga.Props.C15']
+           'Pyiga.Proofs.MLMatrix2', 'Pyiga.Proofs.MLRows', 'Pyiga.Proofs.MLSparsity', 'Pyiga.Proofs.MLMatvec', 'Pyiga.Proofs.MLGenerator', 'Pyiga.Props.C15']
 
 
 def fmt_pairs(I, J):
@@ -135,6 +137,16 @@ def _oracle_struct(bs, bidx, rng):
         y = M._matvec(x) if L in (2, 3) else M.dot(x)
         if not np.array_equal(np.asarray(y).ravel(), K.dot(x)):
             return 'matvec differs from dense Kronecker product times x'
+    # element generators: generated from an entry function of K they must reproduce the compact data of K
+    def entries(indices):
+        return np.array([K[i, j] for (i, j) in indices], dtype=float)
+    G = mlmatrix.ReorderedTensorGenerator(entries, S)
+    if tuple(G.shape) != X.shape or not np.array_equal(np.asarray(G.asarray()), X):
+        return 'ReorderedTensorGenerator over the entries of numpy.kron does not generate the compact data tensor'
+    if L == 2:
+        G2 = mlmatrix.ReorderedMatrixGenerator(entries, S)
+        if tuple(G2.shape) != X.shape or not np.array_equal(np.asarray(G2.asarray()), X):
+            return 'ReorderedMatrixGenerator over the entries of numpy.kron does not generate the compact data tensor'
     # rows / columns
     R = [int(r) for r in rng.permutation(K.shape[0])[:max(1, K.shape[0] // 2)]]
     Ir, Jr = S.nonzeros_for_rows(R)
@@ -239,6 +251,37 @@ def run(ctx):
             I, J = T.nonzero()
             add('nonzero 0 %s' % fmt_struct([(b[1], b[0]) for b in bs], [[(e[1], e[0]) for e in p] for p in bidx]),
                 fmt_pairs(I.tolist(), J.tolist()), ('transpose', bs, bidx))
+        # sequential per-level numbering and the element generators built on it: which matrix positions does
+        # ReorderedTensorGenerator / ReorderedMatrixGenerator ask the assembler for?
+        def f():
+            return plist([sb.tolist() for sb in S.sequential_bidx()], plist)
+        add('sbidx %s' % sdesc, f, ('sbidx', bs, bidx))
+        nmu = min(6, int(np.prod(shape)))
+        mus = [[int(rng.integers(0, n)) for n in shape] for _ in range(nmu)]
+
+        def f():
+            asked = []
+            def multiasm(indices):
+                asked.extend((int(i), int(j)) for (i, j) in indices)
+                return np.zeros(len(indices))
+            G = mlmatrix.ReorderedTensorGenerator(multiasm, S)
+            if tuple(G.shape) != shape:
+                return 'err-shape'
+            G.compute_entries([tuple(mu) for mu in mus])
+            return plist(asked, lambda t: '%d,%d' % t)
+        add('gent %s %s' % (sdesc, plist(mus, plist)), f, ('gent', bs, bidx, mus))
+        if L == 2:
+            def f():
+                asked = []
+                def multiasm(indices):
+                    asked.extend((int(i), int(j)) for (i, j) in indices)
+                    return np.zeros(len(indices))
+                G = mlmatrix.ReorderedMatrixGenerator(multiasm, S)
+                if tuple(G.shape) != shape:
+                    return 'err-shape'
+                G.compute_entries([tuple(mu) for mu in mus])
+                return plist(asked, lambda t: '%d,%d' % t)
+            add('gent2 %s %s' % (sdesc, plist(mus, lambda m: '%d %d' % tuple(m))), f, ('gent2', bs, bidx, mus))
         if len(ctx.samples) < 4 and L >= 3:
             ctx.sample({'bs': bs, 'bidx': bidx, 'nonzero': req[-1][:120]})
 
